@@ -7,9 +7,10 @@ Two std functions are involved:
   with an exact implementation (Driver/C03.lean) and compared with the engine by the harness;
 * `str`'s `{:?}` (used for strings inside arrays and maps) is modelled for the characters the
   harness generates: `"` `\` newline, tab, CR, NUL are backslash escapes, other ASCII and C1
-  control characters (below U+00A0) are `\u{..}` escapes, everything else is printed as is (Rust additionally escapes
-  non-ASCII characters that are not printable or are grapheme extenders; the harness does not
-  generate those);
+  control characters, U+00A0, U+00AD, the combining marks U+0300–U+036F and the listed space
+  separators / format characters (`debugEscapedCp`) are `\u{..}` escapes, everything else is printed
+  as is (Rust escapes every code point `is_printable` refuses and every grapheme extender: the full
+  table is not modelled; the harness generates none outside `debugEscapedCp`);
 * `String::from_utf8_lossy` (printing bytes) is modelled in full (`lossyDecode`).
 -/
 import TeraModel.Model.EvalPrims
@@ -22,6 +23,17 @@ def intToChars (i : Int) : List Char :=
 
 def hexLower (n : Nat) : List Char := Nat.toDigits 16 n
 
+/-- Code points `impl Debug for str` writes as `\u{..}`: `char::escape_debug` escapes what
+`core::unicode::printable::is_printable` refuses and the grapheme extenders.  Exact below U+0378
+(C0 / C1 controls, U+00A0 NO-BREAK SPACE, U+00AD SOFT HYPHEN, the combining marks U+0300–U+036F);
+beyond that only the space separators and format characters the generators can produce are
+listed (U+1680, U+2000–U+200F, U+2028–U+202F, U+205F–U+206F, U+3000, U+FEFF) — measured on the
+toolchain's std, not extracted from it. -/
+def debugEscapedCp (n : Nat) : Bool :=
+  n < 0x20 || (0x7f ≤ n && n ≤ 0xa0) || n == 0xad || (0x300 ≤ n && n ≤ 0x36f) || n == 0x1680 ||
+  (0x2000 ≤ n && n ≤ 0x200f) || (0x2028 ≤ n && n ≤ 0x202f) || (0x205f ≤ n && n ≤ 0x206f) ||
+  n == 0x3000 || n == 0xfeff
+
 /-- `impl Debug for str` on the generated alphabet. -/
 def debugStr (s : List Char) : List Char :=
   let esc (c : Char) : List Char :=
@@ -31,7 +43,7 @@ def debugStr (s : List Char) : List Char :=
     else if c == '\t' then ['\\', 't']
     else if c == '\r' then ['\\', 'r']
     else if c.toNat == 0 then ['\\', '0']
-    else if c.toNat < 0x20 || (0x7f ≤ c.toNat && c.toNat ≤ 0x9f) then ['\\', 'u', '{'] ++ hexLower c.toNat ++ ['}']
+    else if debugEscapedCp c.toNat then ['\\', 'u', '{'] ++ hexLower c.toNat ++ ['}']
     else [c]
   ['"'] ++ s.flatMap esc ++ ['"']
 
